@@ -54,6 +54,10 @@ impl Serialize for FailAfter {
     fn serialize<S: serde::Serializer>(&self, s: S) -> Result<S::Ok, S::Error> {
         let mut st = s.serialize_struct("FailAfter", 4)?;
         for i in 0..4 {
+            if self.k >= 8 && i == self.k - 8 {
+                // the application's own code fails the hard way, part of the document already written
+                panic!("value panicked while being serialised");
+            }
             if i == self.k {
                 return Err(serde::ser::Error::custom("refused by the value"));
             }
@@ -414,7 +418,8 @@ fn gen_history(t: &mut Tape) -> Vec<Op> {
             if t.draw(2) == 0 {
                 Msg::BadKey { len }
             } else {
-                Msg::FailAfter { k: t.draw(4), len }
+                // (one refusing value in four panics instead of returning an error)
+                Msg::FailAfter { k: t.draw(4) + if t.draw(4) == 3 { 8 } else { 0 }, len }
             }
         } else {
             let m = gen_good(t);
@@ -443,7 +448,7 @@ fn gen_history(t: &mut Tape) -> Vec<Op> {
                             other => Msg::Call { len: 0, n: 1, oneway: false, more: false }.with_wire_len(other.wire_len()),
                         });
                     } else if t.chance(bad_rate, 24) {
-                        links.push(Msg::FailAfter { k: t.draw(4), len: t.draw(40) });
+                        links.push(Msg::FailAfter { k: t.draw(4) + if t.draw(4) == 3 { 8 } else { 0 }, len: t.draw(40) });
                     } else {
                         links.push(Msg::Call { len: t.draw(30), n: t.draw(1000) as u32, oneway: t.draw(3) == 2, more: t.draw(4) == 3 });
                     }
@@ -505,7 +510,9 @@ fn sys_history(f: usize, c: usize, kind: usize) -> Vec<Op> {
         3 => mk(kind).with_wire_len(f + 1),
         4 => mk(kind).with_wire_len(f + 256 * 2 + 7),
         5 => Msg::BadKey { len: f + 20 },
-        _ => Msg::FailAfter { k: 2, len: f / 2 + 1 },
+        6 => Msg::FailAfter { k: 2, len: f / 2 + 1 },
+        // panics after two fields
+        _ => Msg::FailAfter { k: 10, len: f / 2 + 1 },
     };
     ops.push(Op::Enqueue(test));
     ops.push(Op::Enqueue(mk(kind).with_wire_len(0)));
@@ -551,13 +558,27 @@ async fn do_enqueue_or_send(conn: &mut Connection<crate::world::SimSocket>, m: &
             }
         }
         Msg::FailAfter { k, len } => {
-            let v = FailAfter { k: *k, pad: padstr(*len, 2) };
             if send {
+                // (a panic inside an asynchronous send would unwind through the executor: the
+                // panicking variant is used for synchronous submissions only)
+                let v = FailAfter { k: *k % 8, pad: padstr(*len, 2) };
                 conn.send_error(&v).await
             } else {
-                conn.enqueue_call(&Call::new(v))
+                let v = FailAfter { k: *k, pad: padstr(*len, 2) };
+                contain(|| conn.enqueue_call(&Call::new(v)))
             }
         }
+    }
+}
+
+/// Run a synchronous submission whose value may panic half-way through its serialisation. The
+/// unwinding is contained (as `catch_unwind`, or a task that dies while others share the
+/// connection, would do) and reported to the model as one more kind of refusal: no bytes, earlier
+/// messages and the connection unaffected.
+fn contain<T>(f: impl FnOnce() -> zlink_core::Result<T>) -> zlink_core::Result<T> {
+    match std::panic::catch_unwind(std::panic::AssertUnwindSafe(f)) {
+        Ok(r) => r,
+        Err(_) => Err(zlink_core::Error::Json(<serde_json::Error as serde::de::Error>::custom("the value panicked while being serialised"))),
     }
 }
 
@@ -571,7 +592,7 @@ fn chain_start<'c>(conn: &'c mut Connection<crate::world::SimSocket>, m: &Msg) -
             m.insert((1, 2), 3);
             conn.chain_call(&Call::new(BadKey { lead: padstr(*len, 1), m }))
         }
-        Msg::FailAfter { k, len } => conn.chain_call(&Call::new(FailAfter { k: *k, pad: padstr(*len, 2) })),
+        Msg::FailAfter { k, len } => contain(|| conn.chain_call(&Call::new(FailAfter { k: *k, pad: padstr(*len, 2) }))),
         _ => unreachable!("chains are made of calls"),
     }
 }
@@ -584,7 +605,7 @@ fn chain_append<'c>(chain: OutChain<'c>, m: &Msg) -> zlink_core::Result<OutChain
             m.insert((1, 2), 3);
             chain.append(&Call::new(BadKey { lead: padstr(*len, 1), m }))
         }
-        Msg::FailAfter { k, len } => chain.append(&Call::new(FailAfter { k: *k, pad: padstr(*len, 2) })),
+        Msg::FailAfter { k, len } => contain(|| chain.append(&Call::new(FailAfter { k: *k, pad: padstr(*len, 2) }))),
         _ => unreachable!("chains are made of calls"),
     }
 }
@@ -641,7 +662,7 @@ impl Prop for Outbound {
             let mut w = world.borrow_mut();
             if w.tape.draw(8) as u32 == SYS_MODE {
                 let f = w.tape.draw(601);
-                let c = w.tape.draw(7);
+                let c = w.tape.draw(8);
                 let kind = w.tape.draw(3);
                 w.cfg = Cfg::plain();
                 (sys_history(f, c, kind), format!("systematic free={f} class={c} kind={kind}"))
@@ -833,7 +854,7 @@ impl Prop for Outbound {
         let mut tapes = Vec::new();
         let kinds: &[u32] = if tier == Tier::Quick { &[0] } else { &[0, 1, 2] };
         for f in 0..=600u32 {
-            for c in 0..7u32 {
+            for c in 0..8u32 {
                 for k in kinds {
                     tapes.push(vec![SYS_MODE, f, c, *k]);
                 }
